@@ -40,24 +40,24 @@ type Val struct {
 	C     string          `json:"c,omitempty"`
 }
 
-func pb(b bool) *bool       { return &b }
-func pi(i int64) *int64     { return &i }
-func ps(s string) *string   { return &s }
+func pb(b bool) *bool     { return &b }
+func pi(i int64) *int64   { return &i }
+func ps(s string) *string { return &s }
 func opaque(v interface{}) Val {
 	return Val{T: "opq", ID: fmt.Sprintf("%T:%v", v, v)}
 }
 
-const big = 1 << 29
+const bigBound = 1 << 29
 
 func absInt(kind string, n int64) Val {
-	if n >= big || n <= -big {
+	if n >= bigBound || n <= -bigBound {
 		return Val{T: "opq", ID: fmt.Sprintf("%s:%d", kind, n)}
 	}
 	return Val{T: "int", K: kind, N: pi(n)}
 }
 
 func absUint(kind string, n uint64) Val {
-	if n >= big {
+	if n >= bigBound {
 		return Val{T: "opq", ID: fmt.Sprintf("%s:%d", kind, n)}
 	}
 	return Val{T: "int", K: kind, N: pi(int64(n))}
@@ -71,7 +71,7 @@ func absFloat(kind string, f float64) Val {
 	for e := int64(0); e <= 12; e++ {
 		x := f * float64(int64(1)<<uint(e))
 		if x == math.Trunc(x) {
-			if math.Abs(x) >= big {
+			if math.Abs(x) >= bigBound {
 				break
 			}
 			return Val{T: "flt", K: kind, M: pi(int64(x)), E: pi(e)}
@@ -81,7 +81,15 @@ func absFloat(kind string, f float64) Val {
 }
 
 // Abs projects a Go value into the universe.
-func Abs(v interface{}) Val {
+func Abs(v interface{}) Val { return absD(v, 0) }
+
+// absD: Abs with a nesting guard (a value that contains itself - possible only
+// when the library aliases a buffer - is projected as opaque instead of
+// recursing forever).
+func absD(v interface{}, depth int) Val {
+	if depth > 24 {
+		return opaque("cyclic or too deep")
+	}
 	if v == nil {
 		return Val{T: "nil"}
 	}
@@ -155,7 +163,7 @@ func Abs(v interface{}) Val {
 		}
 		a := make([]Val, rv.Len())
 		for i := range a {
-			a[i] = Abs(rv.Index(i).Interface())
+			a[i] = absD(rv.Index(i).Interface(), depth+1)
 		}
 		return Val{T: "arr", Et: et, A: a}
 	case reflect.Map:
@@ -176,7 +184,7 @@ func Abs(v interface{}) Val {
 		sort.Strings(keys)
 		mv := make([]Val, len(keys))
 		for i, k := range keys {
-			mv[i] = Abs(rv.MapIndex(reflect.ValueOf(k).Convert(rv.Type().Key())).Interface())
+			mv[i] = absD(rv.MapIndex(reflect.ValueOf(k).Convert(rv.Type().Key())).Interface(), depth+1)
 		}
 		return Val{T: "map", Vt: vt, Mk: keys, Mv: mv}
 	case reflect.Func:
